@@ -8,7 +8,7 @@ cd $wt
 ./py /tmp/mut_$id/m$k.demo.py > $out.demo_clean.log 2>&1; echo "demo_clean_rc=$?" > $out.result
 git apply /tmp/mut_$id/m$k.patch.diff || { echo "apply_failed=1" >> $out.result; }
 ./py /tmp/mut_$id/m$k.demo.py > $out.demo_mut.log 2>&1; echo "demo_mut_rc=$?" >> $out.result
-./py -m pytest -q -p no:cacheprovider --timeout=900 --continue-on-collection-errors -n 5 --junitxml=$out.junit.xml > $out.tests.log 2>&1; echo "tests_rc=$?" >> $out.result
+./py -m pytest -q -p no:cacheprovider --timeout=900 --continue-on-collection-errors -n 6 --junitxml=$out.junit.xml > $out.tests.log 2>&1; echo "tests_rc=$?" >> $out.result
 tail -1 $out.tests.log >> $out.result
 python3 - "$out.junit.xml" >> $out.result <<'PY'
 import sys, json, xml.etree.ElementTree as ET
